@@ -95,20 +95,20 @@ Proof. exact read_reader_independent. Qed.
 Print Assumptions C10_model_read_ignores_reader_state.
 
 Theorem C10_model_read_snapshot_is_given_tree : forall c rk ri t st st' ri' s n,
-  repaired c -> read c rk ri t st = (st', ri', s) ->
+  repaired c -> (n <= 60)%nat -> read c rk ri t st = (st', ri', s) ->
   snap (S (S (S (S n)))) st' s = expected n rk t.
 Proof. exact read_result_function_of_document. Qed.
 Print Assumptions C10_model_read_snapshot_is_given_tree.
 
 Theorem C10_model_read_same_tree_same_snapshot : forall c rk ri1 ri2 t st1 st2 st1' st2' r1 r2 s1 s2 n,
-  repaired c -> read c rk ri1 t st1 = (st1', r1, s1) -> read c rk ri2 t st2 = (st2', r2, s2) ->
+  repaired c -> (n <= 60)%nat -> read c rk ri1 t st1 = (st1', r1, s1) -> read c rk ri2 t st2 = (st2', r2, s2) ->
   snap (S (S (S (S n)))) st1' s1 = snap (S (S (S (S n)))) st2' s2.
 Proof. exact read_same_document_same_result. Qed.
 Print Assumptions C10_model_read_same_tree_same_snapshot.
 
 Theorem C10_model_build_snapshot_is_given_tree : forall c rk ri t st st' ri' s n,
-  fix2 c = true -> (rk =? R_SCC)%Z = false -> read c rk ri t st = (st', ri', s) ->
-  snap n st' s = clean_trunc n (mark_defaults rk t).
+  fix2 c = true -> (rk =? R_SCC)%Z = false -> (n <= S FUEL)%nat -> read c rk ri t st = (st', ri', s) ->
+  snap n st' s = clean_trunc n (unshare (mark_defaults rk t)).
 Proof. exact read_result_function_of_document_partial. Qed.
 Print Assumptions C10_model_build_snapshot_is_given_tree.
 
@@ -159,3 +159,15 @@ Example C10_example_oracle_reports_shared_default :
        [ORead 0 R_SRT doc_a; ORead 1 R_SRT doc_b; OEdit 0 (EAddStyle (TStr (lit "s:x")) red); ORead 2 R_SRT doc_b])
   = [(2, 5); (3, 4)]%Z.
 Proof. exact oracle_reports_shared_default. Qed.
+
+(* the read models build the DAG shape of real results: a span's start and end node carry ONE content dict (marker in the
+   given result tree), so the in-place edit node.content[k] = v shows in both - and only there *)
+Example C10_example_span_dict_shared :
+  set_after fixed [ORead 0 R_DFXP doc_span] 0 = doc_span_snapshot /\
+  let after := set_after fixed [ORead 0 R_DFXP doc_span;
+                                OEdit 0 (ENodeDict 0 0 0 (TStr (lit "s:color")) (TStr (lit "s:pink")))] 0 in
+  content_of after 0 = content_of after 2 /\ content_of after 0 <> content_of doc_span_snapshot 0 /\
+  let after' := set_after fixed [ORead 0 R_DFXP doc_span_snapshot;
+                                 OEdit 0 (ENodeDict 0 0 0 (TStr (lit "s:color")) (TStr (lit "s:pink")))] 0 in
+  content_of after' 0 <> content_of after' 2.
+Proof. exact span_dict_is_shared_in_the_model. Qed.
